@@ -215,6 +215,12 @@ Loop:
 			case codec.MovedOrAsk:
 				addr, slot := r.parseMovedOrAsk()
 				el.eventHandler.OnMoved(addr, slot, s, r)
+				// the redirect could not be followed and the request was failed: deliver the error
+				if r.Done {
+					if cc, ok := r.Owner.(*conn); ok {
+						el.flushClient(cc)
+					}
+				}
 				continue
 
 			// The current message has been processed, continue to process the next message
@@ -332,6 +338,25 @@ func (el *eventloop) flushClient(c *conn) {
 	}
 }
 
+// failFrags answers every request that still waits for a reply on a lost redis connection, or
+// was queued to it and not yet written, with an error, so that no client is left waiting forever.
+func (el *eventloop) failFrags(s *conn) {
+	for _, q := range []*FragQueue{s.inFragQueue, s.outFragQueue} {
+		if q == nil {
+			continue
+		}
+		for f := q.head; f != nil; f = f.prev {
+			if f.Done || f.Owner == nil || f.Peer == nil {
+				continue
+			}
+			f.Fail(codec.ErrBackendClosed)
+			if cc, ok := f.Owner.(*conn); ok {
+				el.flushClient(cc)
+			}
+		}
+	}
+}
+
 const iovMax = 1024
 
 func (el *eventloop) write(c *conn) error {
@@ -413,6 +438,7 @@ func (el *eventloop) closeConn(c *conn, err error, closeType ConnCloseType) (rer
 			GlobalStats.ClientConnectionsClientErr.WithLabelValues().Inc()
 		}
 	case ConnServer:
+		el.failFrags(c)
 		el.eventHandler.OnSClosed(c, err)
 		el.addSConn(-1)
 		switch closeType {
